@@ -38,6 +38,8 @@ ENGINES = {
     'TEBD-1': ('tebd', {'order': 1}, 1), 'TEBD-2': ('tebd', {'order': 2}, 2), 'TEBD-4': ('tebd', {'order': 4}, 4),
     'TEBD-4_opt': ('tebd', {'order': '4_opt'}, 4), 'QR-TEBD-2': ('qrtebd', {'order': 2}, 2),
     'TDVP-2site': ('tdvp2', {}, 2), 'TDVP-1site': ('tdvp1', {}, 2),
+    # single-site TDVP with the documented Krylov basis expansion before every step (MPO applied by SVD compression)
+    'TDVP-1site-krylov': ('tdvp1', {'Krylov_params': {'expansion_dim': 1, 'apply_mpo_options': {'compression_method': 'SVD', 'trunc_params': {'chi_max': 64}}}}, 2),
     'ExpMPO-I': ('mpo', {'approximation': 'I', 'order': 1}, 1), 'ExpMPO-II': ('mpo', {'approximation': 'II', 'order': 1}, 1),
     'ExpMPO-II-o2': ('mpo', {'approximation': 'II', 'order': 2}, 2),
 }
@@ -230,7 +232,7 @@ def run(rec):
     rec.bounds = {'L': '6 (order), 8 (accounting)', 'T': 0.4, 'steps': [4, 8]}
     names = list(ENGINES)
     if quick:
-        names = ['TEBD-2', 'TEBD-4_opt', 'TDVP-2site', 'ExpMPO-II']
+        names = ['TEBD-2', 'TEBD-4_opt', 'TDVP-2site', 'TDVP-1site-krylov', 'ExpMPO-II']
     splits = [lambda n: [n], lambda n: [1, n - 1]]
     for name in names:
         for si, split in enumerate(splits if not quick else splits[1:]):
